@@ -86,6 +86,15 @@ CLAIMS = {
              "over operations (argued in DESIGN, not mechanised).",
         technique="specialised call-graph exploration + ledger-delta shapes + value provenance on MIR",
         ref="6/C07"),
+    "C08": dict(
+        text="Decides for every placement of transactions (the boundary second included, because the comparison operator and its operands are "
+             "read from the MIR): the roll-over is reachable only through (now - last_unbonded_time) > epoch_period (strict); every in-loop "
+             "effect of the releasing loop is behind entry-exists, time <= now - unbonding_period and not-released; the batch id only "
+             "changes by the roll-over's +1; the history map has exactly two writers and the releaser rewrites only `released` and the "
+             "withdraw rates of the key it read; the recorded rates are the ones that price the undelegated amount and the pools are "
+             "reduced by those products. Assumes now - period does not wrap in u64 (envelope).",
+        technique="guard-edge reachability (operator-exact) + writer inventory + value provenance on MIR",
+        ref="6/C08"),
 }
 
 NA = {
